@@ -41,6 +41,80 @@ CHECKS = {
              "ties of intermediate values, which the guide leaves undefined, are evaluated under both readings and counted.",
         note="Trusts spec/ref2.py (self-checked each run against 758 pinned official vectors incl. all 729 base vectors).",
         ref="3 C03"),
+    "C04": dict(
+        technique="runtime differential monitor: constructor outcome vs. an independent grammar recogniser over complete "
+                  "single-edit neighbourhoods",
+        text="Every generated string is fed to all three real constructors; acceptance must equal the verdict of an "
+             "independent 25-line recogniser over own grammar tables, the raised exception must be the version's malformed / "
+             "mandatory class, and nothing outside the CVSSError hierarchy may escape (the hierarchy itself is asserted). "
+             "Quick: 120 valid seeds x their complete single-edit neighbourhood over a 77-symbol hostile alphabet "
+             "(~4M executions) + ~90 field-level operators + junk + 100k-character strings; thorough: 900 seeds + double edits.",
+        note="Strings are unbounded: complete only for the 1-edit ball around the sampled seeds and the listed field "
+             "operators. str inputs only. Trusts spec/tables.py (cross-checked against the official schema patterns/enums).",
+        ref="3 C04"),
+    "C05": dict(
+        technique="trace monitor (functional dependency of the full observation record on the assignment) over permutation / "
+                  "Not-Defined spelling workloads",
+        text="For each sampled assignment the representative spelling's record (scores, ratings, clean vector with/without "
+             "prefix, RH vector, sub-vectors) is compared with the record of every other spelling: reversed, every rotation, "
+             "each metric moved first and last, shuffles, and Not Defined written for none / all / each optional metric alone "
+             "/ random subsets; equality both ways and hash included. A run in which some optional metric was never toggled "
+             "alone is inconclusive.",
+        note="n! permutations are sampled; position sensitivity of each metric at both ends and every single ND toggle are "
+             "covered for every sampled assignment.",
+        ref="3 C05"),
+    "C06": dict(
+        technique="metamorphic runtime monitor (score equality under the five substitution clauses)",
+        text="For each sampled vector every applicable transform of clauses (a)-(e) is applied singly, all together and in "
+             "random subsets, both vectors are constructed by the real library and the in-scope score slots compared. A run "
+             "in which a clause never touched one of its eligible metrics is inconclusive.",
+        note="Equivalents of Not Defined as listed in the property. v2: a slot is compared when defined before the transform.",
+        ref="3 C06"),
+    "C07": dict(
+        technique="postcondition on clean_vector() + ordering-consistency trace monitor + equality/hash pair oracle",
+        text="Structural postcondition on every emitted clean vector (prefix, exactly the defined metrics once each); a trace "
+             "monitor over all emitted vectors records every ordered metric pair and fires if both orders are ever seen (all "
+             "818 pairs observed per run); re-parse idempotence; a==b compared with the canonical-key oracle on same-spelling, "
+             "one-metric-difference (every metric), ND-vs-absent, 3.0-vs-3.1, cross-version and random pairs; hash/set "
+             "behaviour; comparisons with 12 foreign values must be False without raising.",
+        note="'One fixed order' is judged as consistency of the observed order, not against a particular order (C08 pins it).",
+        ref="3 C07"),
+    "C08": dict(
+        technique="postcondition on every emitted vector string: own-parser acceptance + official schema pattern",
+        text="Every string emitted by clean_vector(), rh_vector() and ask_interactively() is fed back to the library's own "
+             "constructor and matched against the vectorString pattern of the pinned FIRST schema. Inputs: no/all/each single/"
+             "EVERY PAIR of optional metrics defined x all value combinations (a mis-ordered output always shows a mis-ordered "
+             "pair) + random subsets, in random input order; interactive scripts for all versions x {mandatory, all}.",
+        note="Trusts the pinned schema patterns. Found and fixed F2 (v4 order).",
+        ref="3 C08"),
+    "C09": dict(
+        technique="object invariant monitor (score well-formedness, own rating scale, agreement of all rating outlets)",
+        text="Invariant checked on every constructed object: scores exactly floats with one decimal in [0,10] (or None only "
+             "for an undefined v2 group, both directions), ratings equal to an independent implementation of the official "
+             "scales, and severities()/CVSS4.severity/JSON *Severity/RH score text agree. Workloads are score-targeted; the "
+             "evidence lists distinct scores and band edges observed per version and slot, and a run that missed a reachable "
+             "band edge is inconclusive. Thorough adds the complete v2 and v4 quotients.",
+        note="Reachable band edges were established by exhaustive sweeps (v2 base never scores 3.9; v3 never 0.1).",
+        ref="3 C09"),
+    "C10": dict(
+        technique="postcondition on as_json(): jsonschema validation against the pinned official schemas",
+        text="as_json() under all four (sort, minimal) pairs is JSON round-tripped and validated (Draft-04/07, exact-decimal "
+             "multipleOf) against the pinned FIRST schema of the vector's version; each-choice over every (metric, value), "
+             "0.0-score groups, random vectors in official and random order. Each error is reduced to a mechanism key; two "
+             "genuine v4 defects remain open as known findings (title-case baseSeverity pinned by the repository's tests; "
+             "echoed out-of-order vectorString, required by C11), three were fixed.",
+        note="Known findings carry confirmation predicates so neighbouring defects (wrong band, malformed vector) still fire.",
+        ref="3 C10"),
+    "C11": dict(
+        technique="postcondition on as_json(): decode-and-compare against an independent name table; sort/minimal relations",
+        text="For every sampled vector all four as_json() results are obtained; vectorString/version identify the input, "
+             "score and severity fields equal the scores and own-scale ratings, every metric field decodes through an "
+             "independent name table to the metric's effective value, sort=True only reorders (ascending), minimal=True only "
+             "removes whole undefined temporal/environmental groups. A run that never decoded some (metric, value) is "
+             "inconclusive. Found and fixed F3 (v2 minimal dropped groups scoring 0.0).",
+        note="Metric fields are located under the schema key or the key in use at the pinned commit; unknown extra keys are "
+             "ignored.",
+        ref="3 C11"),
     "C14": dict(
         technique="relational runtime monitor over severity lines; thorough = offline numpy checker over recorded score tables",
         text="Scores observed while one metric runs through its severity order with all else fixed must be non-increasing. "
